@@ -79,7 +79,7 @@ fn big_tagged(neg: bool, digits: &str, exp10: i64) -> Option<Value> {
     let t = digits.trim_start_matches('0');
     let sig = t.trim_end_matches('0');
     let e = exp10 + (t.len() - sig.len()) as i64;
-    if sig.is_empty() || sig.len() > 9 || e < 1 || (sig.len() as i64) + e < 11 || e > 40 {
+    if sig.is_empty() || sig.len() > 9 || e < 1 || (sig.len() as i64) + e < 11 || e > 310 {
         return None;
     }
     let p: i64 = sig.parse().ok()?;
